@@ -49,8 +49,9 @@ TRUSTED = [
 UNPROVED = [
     "PCA: the per-eigenvalue displacement and the spectral-norm displacement of the projected covariance are measured "
     "on the implementation for every generated neighbour; the nuclear-norm bound itself is a cited hypothesis",
-    "forest/tree: leaf membership is computed by the real tree; the Lean model has the schedule, the parameters and the "
-    "counting lemmas",
+    "forest/tree: forest_model_privloss is proved for the Lean plan in the vector-input calculus (DPL/Model/PrivLossVec: "
+    "packed utility decoded, weight (max increase + max decrease)/sensitivity; <= 2 eps, 0 when the record keeps leaf and "
+    "class); that the real tree's `apply` is the model's `Tree.leafOf` is tied by the trace correspondence only",
     "LogisticRegression: only the epsilon/n_classes split and the data_sensitivity >= row norm relation (C17 has the "
     "mechanism)",
 ]
